@@ -126,6 +126,11 @@ func (s *Sched) Step(id int) *Op {
 	s.cur = t
 	t.resume <- true
 	<-s.yielded
+	if t.done && t.pending != nil && t.pending != op && t.pending.Kind == "panic" {
+		// the thread ended in a panic of the code under test (not the unwinding after Kill): report
+		// that instead of the operation that raised it
+		return t.pending
+	}
 	return op
 }
 
@@ -150,9 +155,32 @@ func (s *Sched) Kill() {
 	}
 }
 
-// Close is the replacement of the builtin close in instrumented code.
+// Close is the replacement of the builtin close where the call is not a statement of its own
+// (`defer close(ch)`, `go close(ch)`): there the operand is evaluated when the statement is reached,
+// as in the original.
 func Close[T any](ch chan T) {
 	op := &Op{Kind: "close", A: ch}
 	Yield(op)
+	close(ch)
+}
+
+// CloseLate is the replacement of a statement `close(X)`:
+//
+//	vsched.CloseLate(func(op *vsched.Op) { vsched.CloseNow(op, X) })
+//
+// The thread yields first and evaluates the operand X only when the close is performed. In the
+// original the evaluation of X and the close are adjacent instructions; evaluating X before the
+// yield (as an argument of Close would be) glues it to the PREVIOUS visible operation, which hides
+// every schedule in which another goroutine changes what X designates in between (e.g. X = *p for
+// a p that points into a reused slot and is read after an Unlock).
+func CloseLate(f func(op *Op)) {
+	op := &Op{Kind: "close"}
+	Yield(op)
+	f(op)
+}
+
+// CloseNow performs the close announced by CloseLate.
+func CloseNow[T any](op *Op, ch chan T) {
+	op.A = ch
 	close(ch)
 }
